@@ -26,9 +26,10 @@ TWO_SECTIONS = "fit:\n  x: 1\ntest:\n  y: [2]\n"
 OPS = [
     "parse_args_ok", "parse_args_fail", "help", "print_config", "print_config_then_invalid", "cfg_two_sections", "cfg_two_sections_implicit",
     "parse_object_ok", "parse_object_fail", "parse_string", "parse_env", "get_defaults", "dump", "validate", "instantiate", "sub_print_config_then_invalid",
+    "print_config_then_help", "sub_print_config_then_help",
     "parse_args_class", "parse_string_fail",
 ]
-QUICK_OPS = OPS[:16]
+QUICK_OPS = OPS[:18]
 
 _DEFAULT_DIR = [None]
 
@@ -104,6 +105,10 @@ def _run(parser, op, ints):
                 r = parser.parse_args(["--print_config", "--a=bad", "fit"])
             elif op == "sub_print_config_then_invalid":
                 r = parser.parse_args(["fit", "--print_config", "--x=bad"])
+            elif op == "print_config_then_help":
+                r = parser.parse_args(["--print_config", "--help"])
+            elif op == "sub_print_config_then_help":
+                r = parser.parse_args(["fit", "--print_config", "--help"])
             elif op == "cfg_two_sections":
                 r = parser.parse_args(["--cfg", TWO_SECTIONS, "test"])
             elif op == "cfg_two_sections_implicit":
@@ -246,7 +251,7 @@ def main(rep, tier):
     for cls, samples in fails.items():
         for smp in samples:
             hist = smp["info"].get("history", [])
-            groups.setdefault((cls, "print_config_then_invalid" in hist[:-1] or "sub_print_config_then_invalid" in hist[:-1]), []).append(smp)
+            groups.setdefault((cls, any(h.endswith(("print_config_then_invalid", "print_config_then_help")) for h in hist[:-1])), []).append(smp)
     for (cls, poisoned), samples in groups.items():
         reported = False
         for smp in samples[:6]:
